@@ -8,6 +8,7 @@ import (
 	"strings"
 	"testing"
 	"time"
+	"unicode"
 
 	"github.com/pentops/j5/internal/bcl/internal/parser"
 	"github.com/pentops/j5/internal/bcl/internal/verif/bclgen"
@@ -72,8 +73,11 @@ func apply(text string, edits []parser.FmtDiff) string {
 	return sb.String()
 }
 
+// trimTrailingBlank drops trailing blank lines. A line is blank when it holds
+// nothing but characters the lexer skips as white space (unicode.IsSpace: form
+// feed, vertical tab, NBSP, ... besides space and tab).
 func trimTrailingBlank(s string) string {
-	return strings.TrimRight(s, "\n \t")
+	return strings.TrimRightFunc(s, unicode.IsSpace)
 }
 
 func checkDiffs(text string) (fails []vf.Failure, accepted bool, nEdits int) {
